@@ -126,6 +126,7 @@ class Proc:
     __slots__ = (
         "pid", "task", "execno", "argv", "cwd", "env", "fds", "script", "ip", "state", "status",
         "term", "term_delay", "partial", "registered", "sigs", "stray", "label", "detached", "group",
+        "stopped", "stop_unreported", "stop_left",
     )
 
     def __init__(self, pid, task, execno, argv, cwd, env, fds, script):
@@ -148,6 +149,9 @@ class Proc:
         self.label = None
         self.detached = False      # a grandchild: not waitable by cond, no SIGCHLD
         self.group = pid
+        self.stopped = None        # job-control stop: the signal that stopped it (alive, makes no progress)
+        self.stop_unreported = False
+        self.stop_left = 0
 
     @property
     def name(self):
@@ -382,14 +386,20 @@ _REAL_TPE = concurrent.futures.ThreadPoolExecutor
 
 
 class Sink(io.RawIOBase):
-    def __init__(self):
+    def __init__(self, limit=None):
         super().__init__()
         self.data = bytearray()
+        self.limit = limit      # I/O fault: the reader goes away once this many bytes have been written
 
     def writable(self):
         return True
 
     def write(self, b):
+        if self.limit is not None and len(self.data) >= self.limit:
+            s = CUR
+            if s is not None:
+                s.count("fault.own_stdout_EPIPE_after_n_bytes")
+            raise BrokenPipeError(errno.EPIPE, "Broken pipe")
         self.data += bytes(b)
         return len(b)
 
@@ -1471,6 +1481,17 @@ class Sim:
         """one step of a stub child's script"""
         if p.state != "running":
             return
+        if p.stopped is not None:
+            # suspended (SIGSTOP / SIGTSTP from a user or a batch system): nothing happens until SIGCONT
+            if p.stop_left > 0:
+                p.stop_left -= 1
+                return
+            p.stopped = None
+            p.stop_unreported = False
+            self.emit("continued", p.name)
+            if not p.detached and not p.stray:
+                self.raise_signal(signal.SIGCHLD)      # CLD_CONTINUED (no SA_NOCLDSTOP in CPython's sigaction)
+            return
         if p.term:
             if p.term_delay > 0:
                 p.term_delay -= 1
@@ -1564,6 +1585,14 @@ class Sim:
             self.emit("lib", p.name, self._eval_lib(p))
         elif kind == "nop":
             pass
+        elif kind == "stop":
+            p.stopped = int(st[1])
+            p.stop_unreported = True
+            p.stop_left = int(st[2]) if len(st) > 2 else 0
+            self.emit("stopped", p.name, p.stopped)
+            self.count("fault.child_stopped_by_job_control_signal")
+            if not p.detached and not p.stray:
+                self.raise_signal(signal.SIGCHLD)      # CLD_STOPPED
 
     def _eval_lib(self, p):
         """what conductor.lib reports inside the task (evaluated under the child's environment)"""
@@ -1591,6 +1620,7 @@ class Sim:
         return res
 
     def k_waitpid(self, pid, flags):
+        untraced = bool(flags & os.WUNTRACED)
         if pid == -1:
             for p in self.procs.values():
                 if p.state == "zombie":
@@ -1598,6 +1628,11 @@ class Sim:
                     self.emit("reap", p.name, "any:" + sys._getframe(2).f_code.co_name)
                     self.cp_marks.append((self.cp, -1))
                     return p.pid, p.status
+                if untraced and p.state == "running" and p.stopped is not None and p.stop_unreported:
+                    # WUNTRACED: a stopped child is reported once; it is still there
+                    p.stop_unreported = False
+                    self.emit("stopreport", p.name)
+                    return p.pid, (p.stopped << 8) | 0x7F
             if any(p.state == "running" for p in self.procs.values()):
                 if not (flags & os.WNOHANG):
                     raise SimDeadlock("blocking waitpid(-1)")
@@ -1611,6 +1646,10 @@ class Sim:
             self.emit("reap", p.name, "pid:" + sys._getframe(2).f_code.co_name)
             self.cp_marks.append((self.cp, -1))
             return pid, p.status
+        if untraced and p.state == "running" and p.stopped is not None and p.stop_unreported:
+            p.stop_unreported = False
+            self.emit("stopreport", p.name)
+            return pid, (p.stopped << 8) | 0x7F
         if not (flags & os.WNOHANG):
             # a blocking wait on one child: let the environment run until it exits
             self.block(lambda: p.state != "running", "waitpid")
@@ -1880,9 +1919,12 @@ class Sim:
         os.environ.update(op.get("env", {}))
         os.chdir(self.root / inv.cwd)
         sys.argv = ["cond"] + inv.argv
-        osink, esink = Sink(), Sink()
+        own = op.get("own_stdout") or {}
+        # own stdout: a terminal (line buffered) or a pipe (block buffered, as CPython does it); the reader of
+        # the pipe may go away after a number of bytes (`cond run ... | head`): EPIPE from then on
+        osink, esink = Sink(own.get("gone_after")), Sink()
         sys.stdout = OutText(io.BufferedWriter(osink), encoding="utf-8", errors="strict",
-                             line_buffering=True)
+                             line_buffering=own.get("mode", "tty") != "pipe")
         sys.stderr = ErrText(io.BufferedWriter(esink), encoding="utf-8", errors="backslashreplace",
                              line_buffering=True)
         subprocess._active.clear()
@@ -2113,4 +2155,9 @@ def snapshot(root):
     outside = root.parent / "outside"
     if outside.is_dir():
         snap["outside"] = tree_of(outside)
+    reloc = str(root.parent / "relocated") + os.sep
+    moved = {r: tree_of(v[1]) for r, v in snap["tree"].items() if v[0] == "l" and str(v[1]).startswith(reloc)}
+    if moved:
+        # outputs that were moved to another volume by hand (a symbolic link took their place)
+        snap["relocated"] = moved
     return snap
